@@ -17,6 +17,10 @@ Spec == Init /\ [][Next]_vars
 Report == Violations(f, s) # {} =>
             PrintT("BAD " \o ToJson([fi |-> f, file |-> Funcs[f].file, name |-> Funcs[f].name,
                                      ip |-> s.ip, checks |-> SetToSeq(Violations(f, s)), state |-> s]))
+(* first pass: how each activation can end (operand-depth interval at `ret` / at the end) *)
+RetRecord == (s.st \in {"ret", "end"} /\ IOEnv.RETS = "1") =>
+            PrintT("RET " \o ToJson([fi |-> f, lo |-> IF s.st = "end" THEN 0 ELSE s.lo,
+                                     hi |-> IF s.st = "end" THEN 0 ELSE (IF s.hi > 1 THEN 1 ELSE s.hi)]))
 (* a module body that ends normally leaves no block frame behind *)
 Finished == s.st \in {"ret", "end"} => Len(s.fr) = 0
 =============================================================================
